@@ -28,6 +28,9 @@ PROBES = {
             'refused-unencodable'],
 }
 
+# reach probes of the "long-lived application" runs (DESIGN section 12.1), tracked like the others
+PROBES['C06'] = list(PROBES['C06']) + ['more-than-128-earlier-names']
+
 ERRNAMES = {1: 'GeneralServerFailureError', 2: 'ConnectionNotAllowedError', 3: 'NetworkUnreachableError',
             4: 'HostUnreachableError', 5: 'ConnectionRefusedError', 6: 'TtlExpiredError',
             7: 'CommandNotSupportedError', 8: 'AddressTypeNotSupportedError'}
